@@ -385,7 +385,8 @@ class Ensures:
                     for o in trace(b, t["a"][0], through_calls=False):
                         if o.kind == "call" and self.is_guard_call(o.data, depth):
                             sat = True
-                elif n in ("map_err", "map", "context", "with_context", "and_then", "into", "from", "ok_or", "ok_or_else") and t["a"]:
+                elif n in ("map_err", "map", "context", "with_context", "and_then", "into", "from", "ok_or", "ok_or_else", "expect", "unwrap") and t["a"]:
+                    # (`expect` / `unwrap` return only when the value was a success)
                     for o in trace(b, t["a"][0], through_calls=False):
                         if o.kind == "call" and self.is_guard_call(o.data, depth):
                             sat = True
